@@ -154,7 +154,7 @@ HARNESSES = []
 QUICK = ('disc_of_disc_stochastic', 'disc_of_disc_deterministic', 'chain', 'two_params_named', 'shared_constant', 'two_summaries', 'summary_of_prior', 'summary_mixes_prior',
          'dup_parent', 'dup_parent_named')
 for pname in PROGRAMS:
-    if pname in ('indep_priors', 'fork_sims'):
+    if pname in ('indep_priors', 'fork_sims', 'mini'):
         continue        # C02's programs
     if len(PROGRAMS[pname]) >= 6:
         HARNESSES.append(H('gen_' + pname + '_given_first3', h_generate, dict(program=pname, limit_given=3),
